@@ -4,7 +4,9 @@ NOT_BUILT_REASON = ("check not built yet in this round (design in DESIGN.md §5)
 
 _NOTE = ("Trusted base: CPython ast of /venv/bin/python 3.12, the checker code in /verif/sa, and the "
          "source files of the installed dependencies it reads (digests in evidence). Assumes Python "
-         "semantics of the constructs it models (54 conformance cases against CPython in tools/evalconf.py); "
+         "semantics of the constructs it models (74 conformance cases against CPython in tools/evalconf.py; generators, "
+         "class statements, descriptor / special-method protocols included); an evaluation that outgrows 6 GB or 3000 s "
+         "ends as analysis-broken (exit 2); "
          "decides only the clauses named in the level text. Every abstract input is built through the model "
          "classes' own constructors / add_relation evaluated from source and read back (<prop>-MODEL).")
 
@@ -87,7 +89,8 @@ CHECKS = {
            "methods, the dependency's Metrics.execute read from source) is evaluated as a formula on an abstract model "
            "realising every relation kind and constraint class whose objects/containers are frozen - any store is a "
            "finding; (STATE) two executions on one object leave exactly the result a fresh object computes for the "
-           "second model, repeated execution is idempotent; (GENATTR) with the random source replaced by recording "
+           "second model, repeated execution is idempotent; (ONLYMODEL) the result is the same under both extreme iteration "
+           "orders of Python sets, i.e. does not depend on PYTHONHASHSEED; (GENATTR) with the random source replaced by recording "
            "stubs, generation adds exactly one attribute (name, parent, value from the domain) to each targeted feature "
            "lacking it, nothing else changes, randint/uniform get (min,max) in order and match the bound types, missing "
            "domain/name are FlamaException. Not decided: distribution/seeds; effects on paths the abstract models do "
